@@ -63,7 +63,7 @@ def copy_to_obligations(ctx: Ctx, I: Interp) -> None:
         run.__dict__["o"] = (s, p, iv)
         return ({ps[0]: s, ps[1]: p, ps[2]: iv}, s)
 
-    n_mut = n_raise = 0
+    n_mut = n_raise = n_raise_listed = 0
     for l in I.run_function(CORE, "HTMLDependency.copy_to", mk, cfg):
         s, p, iv = l.run.__dict__["o"]
         eff = l.effects
@@ -98,6 +98,8 @@ def copy_to_obligations(ctx: Ctx, I: Interp) -> None:
                 break
         if l.kind == "raise":
             n_raise += 1
+            if l.run.path.memo.get(("attr", s.uid, "all_files")) != 0:
+                n_raise_listed += 1
             before = [eff[i] for i in muts]
             before = [e for e in before if not e.__dict__.get("in_loop") or True]
             ctx.check(not muts, "C12.P4", "a missing listed file raises before the target directory is touched", where,
@@ -136,11 +138,19 @@ def copy_to_obligations(ctx: Ctx, I: Interp) -> None:
                       witness="copy_to into a directory that holds files of an older version")
         elif target_exists is False:
             ctx.check(not rm, "C12.P4", "rmtree only runs when the target exists", where, f"rmtree with exists={target_exists}", "rmtree is called on a missing directory")
+        else:
+            # no existence test of the target on this path: the directory must be cleared unconditionally
+            ctx.check(len(rm) >= 1 and all(rm[0] < i for i in rest), "C12.P4", "a target directory whose existence is not tested is cleared before anything is created or copied", where,
+                      f"order {[_q(eff[i]) for i in muts][:5]} (no existence test of the target)", "stale contents of the dependency's target directory are never removed",
+                      witness="copy_to into a directory that holds files of an older version")
         # target dir = join(path, href)
         for i in rm:
             pass
     ctx.min_count("copy_to paths that change the filesystem", n_mut, 2)
     ctx.check(n_raise >= 1, "C12.P4", "copy_to has a path that raises for a missing file", where, "no raising path", "a missing listed file is not reported",
+              witness="HTMLDependency(..., script={'src': 'missing.js'}).copy_to(d)")
+    ctx.check(n_raise_listed >= 1, "C12.P4", "copy_to raises for a missing file when the files are listed explicitly (all_files not set)", where,
+              f"raising paths: {n_raise}, of which with all_files unset: {n_raise_listed}", "a missing explicitly listed file is not reported: the raise only happens with all_files=True",
               witness="HTMLDependency(..., script={'src': 'missing.js'}).copy_to(d)")
     # which files: all_files -> directory listing, else script.src + stylesheet.href
     cfg2 = Config()
